@@ -6,6 +6,8 @@
 // sanitizers, the descriptor table and the server's own maps.
 #include "worlds/net_common.hpp"
 
+#include <cctype>
+
 #include "ephemeralnet/relay/EventLoop.hpp"
 #include "ephemeralnet/relay/RelayServer.hpp"
 
@@ -70,6 +72,13 @@ struct Client {
 };
 
 std::string id_hex(int j) { return en::peer_id_to_string(make_id(static_cast<std::uint8_t>(0x90 + j), 0x77)); }
+// the same id as a client may spell it on the wire: 0 lower case, 1 upper case, 2 mixed
+std::string id_spelt(int j, std::int64_t spelling) {
+    std::string h = id_hex(j);
+    if (spelling == 1) for (auto& ch : h) ch = static_cast<char>(std::toupper(static_cast<unsigned char>(ch)));
+    if (spelling == 2) { bool up = true; for (auto& ch : h) if (std::isalpha(static_cast<unsigned char>(ch))) { if (up) ch = static_cast<char>(std::toupper(static_cast<unsigned char>(ch))); up = !up; } }
+    return h;
+}
 
 std::vector<std::uint8_t> identity_block(int c) { return std::vector<std::uint8_t>(32, static_cast<std::uint8_t>(0xF0 + c)); }
 void append_record(std::vector<std::uint8_t>& out, int c, std::size_t seq) {
@@ -160,6 +169,12 @@ Plan gen_relay(sk::Rng& r, bool garbage) {
         if (garbage && r.chance(1, 10)) { Op g; g.k = "garbage"; g.a = {cl, static_cast<std::int64_t>(r.below(8)), frag}; p.ops.push_back(g); }
         if (garbage && r.chance(1, 25)) { Op g; g.k = "emfile"; p.ops.push_back(g); }
         p.ops.push_back(op);
+    }
+    // how each id is spelt on the wire (hex digits in lower, upper or mixed case); one in four plans uses other spellings at all
+    const bool spellings = r.chance(1, 4);
+    for (auto& op : p.ops) {
+        if (op.k == "register") { while (op.a.size() < 4) op.a.push_back(0); op.a.push_back(spellings && r.chance(1, 3) ? r.range(1, 2) : 0); }
+        if (op.k == "connect") { while (op.a.size() < 4) op.a.push_back(1); op.a.push_back(spellings && r.chance(1, 2) ? r.range(1, 2) : 0); op.a.push_back(spellings && r.chance(1, 4) ? r.range(1, 2) : 0); }
     }
     return p;
 }
@@ -295,13 +310,15 @@ void run_relay_world(const Plan& p, Ctx& ctx, bool c26) {
             if (c.role == 1) ctx.boundary(has_line(i, "BEGIN") ? "reregister_after_begin" : "reregister_same_connection");
             // is this peer currently claimed (a connector got OK for it and the bridge is pending or up)?
             for (auto& o : cl) if (o->open && o->role == 2 && o->target_id == c.reg_id && c.role == 1) ctx.boundary("reregister_while_claimed");
-            std::string line = "REGISTER " + id_hex(id) + (op.at(3) ? "\r\n" : "\n");
+            if (op.at(4)) ctx.boundary("id_not_in_lower_case");
+            std::string line = "REGISTER " + id_spelt(id, op.at(4)) + (op.at(3) ? "\r\n" : "\n");
             if (send_bytes(i, text(line), static_cast<int>(op.at(2)))) { c.role = c.role == 2 ? 2 : 1; c.reg_id = id; ++c.registers; }
         } else if (op.k == "connect") {
             const int self = static_cast<int>(op.at(1)), target = static_cast<int>(op.at(2));
             if (c.role == 1 || c.connects > 0) c.sent_garbage = c.sent_garbage || c.role == 1;  // CONNECT from a registered client is refused; still modelled as garbage-free if refused
             if (self == target) ctx.boundary("self_connect");
-            std::string line = "CONNECT " + id_hex(self) + " " + id_hex(target) + "\n";
+            if (op.at(4) || op.at(5)) ctx.boundary("id_not_in_lower_case");
+            std::string line = "CONNECT " + id_spelt(self, op.at(5)) + " " + id_spelt(target, op.at(4)) + "\n";
             if (send_bytes(i, text(line), static_cast<int>(op.at(3)))) {
                 ++c.connects;
                 sk::sleep_ns(20 * kMs + p.knob("lat_max_us", 300) * 4000);
